@@ -170,3 +170,11 @@ more("C10", "PKCS#1 v1.5 under RSA-PSS keys for every hash.")
 more("C11", "Correctly padded messages of one to three octets.")
 more("C13", "SRP session-ID histories.")
 more("C17", "An unprotected fatal alert of the peer at every receive call of the handshake at which one is readable.")
+more("C03", "The signature scheme the server used lies within both policies (hash, RSA padding scheme).")
+more("C05", "Class unadvertised also at the TLS 1.3 client CertificateVerify.")
+more("C06", "Fabricated messages also ahead of the peer's first message.")
+more("C08", "Resumption against rotated ticket keys; the honest flow of every flavour is a case.")
+more("C14", "A select()-style AsyncStateMachine loop (no draining, one record at a time) with asymmetric record size limits.")
+more("C17", "A sibling connection of the same session fails (SiblingFails / DeadStaysDead).")
+more("C18", "Scheduler watchdog: a thread blocked outside the scheduler's control ends the run as stuck.")
+more("C20", "A session of a TLS 1.2-only suite offered again at an older version.")
